@@ -105,8 +105,9 @@ func runProcess(in *ProcIn) (*ProcOut, error) {
 	if in.Wait < 600 || in.Wait > 5000 || in.Grace < 300 || in.Grace > 3000 {
 		return nil, fmt.Errorf("%w: wait/grace", errEnvelope)
 	}
-	if in.Dynamic && (in.Refresh < 50 || in.Refresh*3 > in.Wait) {
-		return nil, fmt.Errorf("%w: refresh must be ≥ 50 ms and at most a third of the wait", errEnvelope)
+	// the refresher's next wake-up after SIGTERM must fall well inside grace + wait, or nothing can be observed
+	if in.Dynamic && (in.Refresh < 50 || in.Refresh+500 > in.Grace+in.Wait) {
+		return nil, fmt.Errorf("%w: refresh must be ≥ 50 ms and end ≥ 500 ms before grace + wait", errEnvelope)
 	}
 	bin, err := buildFabio()
 	if err != nil {
@@ -277,9 +278,12 @@ func init() {
 		Name: "c18.process",
 		Gen: func(r *hx.Rand, i int) interface{} {
 			in := ProcIn{Wait: []int{900, 1200, 1500}[r.Intn(3)], Grace: []int{300, 450, 600}[r.Intn(3)]}
-			in.Dynamic = i%2 == 0
-			if in.Dynamic {
-				in.Refresh = []int{100, 150, 200}[r.Intn(3)]
+			switch i % 4 {
+			case 0: // refresher wakes several times inside the grace period
+				in.Dynamic, in.Refresh = true, []int{60, 100, 200}[r.Intn(3)]
+			case 2: // refresher is asleep when SIGTERM arrives and wakes only after proxy.Shutdown closed the port
+				in.Dynamic, in.Refresh = true, []int{900, 1200}[r.Intn(2)]
+				in.Wait, in.Grace = []int{2000, 2500}[r.Intn(2)], []int{300, 450}[r.Intn(2)]
 			}
 			return in
 		},
